@@ -150,34 +150,8 @@ Walk(t, s, ops, res, i, j) ==
            ELSE IF c.stop THEN [bad |-> "", st |-> c.st, at |-> 0, pre |-> s, early |-> FALSE]
            ELSE Walk(t, c.st, ops, res, i + 1, j + 1)
 
-(***************************************************************************)
-(* Narrow signatures of the open findings (ids of known_findings.json /    *)
-(* findings/<id>/entry.json).                                              *)
-(***************************************************************************)
-\* KF-C20-1: retarget_references(b, None, ..) when nothing refers to b raises
-\* AssertionError if an earlier retarget left a pair of empty trees for b.
-KF1(t, w, ops) ==
-  /\ t.k = "rc" /\ w.bad = "C20_Completes" /\ w.at > 0 /\ ~w.early
-  /\ LET op == ops[w.at]
-     IN  /\ op[1] = 1 /\ op[3] = 0
-         /\ w.got[1] = "AssertionError"
-         /\ RC!ARefs(w.pre, op[2]) = {}
-         /\ \E i \in 1..(w.at - 1) : ops[i][1] = 1 /\ (ops[i][2] = op[2] \/ ops[i][3] = op[2])
-
-\* KF-C20-2: BlockOrdering._primitive_insert iterates its argument twice and
-\* checks duplicates only against the blocks already ordered.
-KF2(t, w, ops) ==
-  /\ t.k = "bo" /\ w.at > 0 /\ ~w.early
-  /\ LET op == ops[w.at]
-         L == CBo!BoList(op[3], op[4])
-         fresh == \A i \in DOMAIN L : L[i] \notin CBo!BoOrdered(w.pre)
-         dup == Cardinality(AsSet(L)) # Len(L)
-     IN  /\ op[1] \in {1, 2, 4, 5} /\ L # <<>> /\ fresh
-         /\ \/ dup /\ w.bad = "C20_Completes" /\ w.got[1] = ""           \* no ValueError
-            \/ /\ ~dup /\ op[1] \in {4, 5} /\ w.bad = "C20_BlockOrdering"  \* iterator: nothing inserted
-               /\ w.got[1] = "" /\ ObsEq(t, CBo!BoObs(w.pre), w.got[3])
-
-KfOf(t, w, ops) == (IF KF1(t, w, ops) THEN {"KF-C20-1"} ELSE {}) \cup (IF KF2(t, w, ops) THEN {"KF-C20-2"} ELSE {})
+\* C20 has no open finding: nothing is excused (kf is always empty).
+KfOf(t, w, ops) == {}
 
 (***************************************************************************)
 (* Verdict of one case                                                     *)
@@ -207,7 +181,7 @@ Verdict(t) ==
       badIdx == {i \in DOMAIN vs : vs[i].bad # ""}
       clauses == {vs[i].bad : i \in badIdx}
       First(c) == vs[CHOOSE i \in badIdx : vs[i].bad = c /\ \A j \in badIdx : vs[j].bad = c => i <= j]
-      Kf(c) == {id \in {"KF-C20-1", "KF-C20-2"} : \A i \in badIdx : vs[i].bad = c => id \in vs[i].kf}
+      Kf(c) == {}
       failed == {[clause |-> c,
                   diff |-> [run |-> First(c).run, at |-> First(c).at, op |-> First(c).op,
                             expected |-> First(c).exp, observed |-> First(c).got,
